@@ -327,12 +327,17 @@ INITS = [(), (G('{a}'),), (G('{a}'), G('[a]'), G('{a}')), (S(' '), G('{a}'), S('
          (G('{b}'), G('{a}'), S('\n'), G('{b}'), S('[a]'))]
 
 
+def ops_deep():
+    """the mutating part of the core set (30 operations), for depth 4"""
+    return [o for o in ops_core() if o[0] not in ('get', 'slice', 'contains') and o != ('pop', -2)]
+
+
 def exhaustive_cases(tier):
     full, core = ops_full(), ops_core()
     if tier == 'quick':
         plans = [(full, 2, INITS), (core, 3, INITS[:4])]
     else:
-        plans = [(full, 2, INITS), (full, 3, INITS[2:3]), (core, 3, INITS), (core, 4, INITS[2:3])]
+        plans = [(full, 2, INITS), (full, 3, INITS[2:3]), (core, 3, INITS), (ops_deep(), 4, INITS[2:3])]
     notes = []
     for ops, depth, inits in plans:
         notes.append('all %d^%d operation sequences (every prefix observed) from %d initial lists'
@@ -402,7 +407,7 @@ def rand_init(rng):
 
 def random_cases(prop, tier):
     rng = rng_for(prop, KIND)
-    n = 3000 if tier == 'quick' else 60000
+    n = 3000 if tier == 'quick' else 40000
     for _ in range(n):
         yield (rand_init(rng), tuple(rand_op(rng) for _ in range(rng.randint(1, 30))))
 
